@@ -300,7 +300,14 @@ func (dec *ttlvReader) Struct(tag int, f func(reader) error) error {
 	if err := dec.assertType(TypeStructure, tag); err != nil {
 		return err
 	}
-	if err := f(&ttlvReader{buf: dec.value()}); err != nil {
+	// Validate the first nested item before use, and clip the capacity so that
+	// nothing outside of the structure's declared extent can ever be read.
+	v := dec.value()
+	inner, err := newTTLVReader(v[:len(v):len(v)])
+	if err != nil {
+		return err
+	}
+	if err := f(inner); err != nil {
 		return err
 	}
 	return dec.Next()
